@@ -584,7 +584,7 @@ const c20Base = `{
    "parameters":[{"$ref":"#/components/parameters/Id"}],
    "get":{
     "operationId":"getPet","tags":["a"],
-    "parameters":[{"name":"q","in":"query","schema":{"type":"array","items":{"type":"string"}},"examples":{"e":{"$ref":"#/components/examples/Ex"}}}],
+    "parameters":[{"name":"q","in":"query","schema":{"type":"array","items":{"type":"string"}},"examples":{"e":{"value":["a"]}}}],
     "responses":{
      "200":{"description":"ok","headers":{"X-Rate":{"$ref":"#/components/headers/Rate"}},
             "content":{"application/json":{"schema":{"$ref":"#/components/schemas/Pet"},"examples":{"e":{"$ref":"#/components/examples/Ex"}}}},
@@ -631,7 +631,7 @@ const c20Small = `{
   "responses":{"R":{"description":"r","headers":{"h":{"$ref":"#/components/headers/H"}},"links":{"l":{"$ref":"#/components/links/L"}},
      "content":{"application/json":{"schema":{"$ref":"#/components/schemas/S"}}}}},
   "securitySchemes":{"K":{"type":"http","scheme":"basic"}},
-  "examples":{"E":{"value":1}},
+  "examples":{"E":{"value":{"p":"x"}}},
   "links":{"L":{"operationId":"x"}},
   "callbacks":{"C":{"/cb":{"post":{"responses":{"200":{"description":"ok"}}}}}}
  }
